@@ -62,3 +62,14 @@ Theorem C06_bound : forall B K valid s i, 0 < B <= 1000 -> reach B K valid s -> 
   plocal s <= i + 1 + 1000.
 Proof. exact readahead_bound. Qed.
 Print Assumptions C06_bound.
+
+(* through a view (ViewDemand.v): a forward traversal of any view stopped after k items waits for nothing beyond
+   its (clamped) start + k, and never beyond the view's limit *)
+Require ViewReads ViewDemand.
+Theorem C06_demand_view_scan : forall (D : nat -> option nat), (forall i, D i = None -> D (S i) = None) ->
+  forall (W : nat -> nat -> nat * bool), (forall c i, WaitOK D i (W c i)) ->
+  forall big k c sp start x, In x (ViewDemand.view_scan_demand W big k c sp start) ->
+  x <= (match sp with ViewReads.NLim l => Nat.min start l | _ => start end) + k /\
+  (match sp with ViewReads.NLim l => x <= l | _ => True end).
+Proof. exact ViewDemand.view_scan_demand_bound. Qed.
+Print Assumptions C06_demand_view_scan.
